@@ -1547,24 +1547,29 @@ impl PeerConnection {
                 {
                     new_role = Some(true);
                 } else {
-                    for section in &desc.media_sections {
-                        for attr in &section.attributes {
-                            if attr.key == "setup"
-                                && let Some(val) = &attr.value
-                            {
-                                let is_client = match val.as_str() {
-                                    "active" => false,
-                                    "passive" => true,
-                                    "actpass" => false,
-                                    _ => true,
-                                };
-                                new_role = Some(is_client);
-                                break;
+                    // RFC 4145 4: a=setup is valid at media and at session
+                    // level.  A media-level value wins; the session-level
+                    // one covers sections that carry none.
+                    let remote_setup = desc
+                        .media_sections
+                        .iter()
+                        .flat_map(|section| section.attributes.iter())
+                        .chain(desc.session.attributes.iter())
+                        .find_map(|attr| {
+                            if attr.key == "setup" {
+                                attr.value.as_deref()
+                            } else {
+                                None
                             }
-                        }
-                        if new_role.is_some() {
-                            break;
-                        }
+                        });
+                    if let Some(val) = remote_setup {
+                        let is_client = match val {
+                            "active" => false,
+                            "passive" => true,
+                            "actpass" => false,
+                            _ => true,
+                        };
+                        new_role = Some(is_client);
                     }
                 }
                 if let Some(r) = new_role {
@@ -11608,6 +11613,41 @@ a=rtpmap:8 PCMA/8000\r\n";
         assert!(
             sdp.contains("a=mid:0"),
             "answer must keep a=mid:0 for the BUNDLED section, got:\n{sdp}"
+        );
+    }
+
+    /// a=setup may be given once at session level (RFC 4145 4).  An offerer
+    /// that declares itself `active` there must be answered with `passive`.
+    #[tokio::test]
+    async fn answer_honours_session_level_setup() {
+        let remote_sdp = "\
+v=0\r\n\
+o=- 1 2 IN IP4 127.0.0.1\r\n\
+s=-\r\n\
+t=0 0\r\n\
+a=group:BUNDLE 0\r\n\
+a=setup:active\r\n\
+a=fingerprint:sha-256 A9:96:C7:D5:20:2D:17:06:CC:7E:94:0D:89:AA:DE:47:8F:21:3F:97:B1:D5:C5:A2:41:48:E1:A5:8A:D5:BB:B1\r\n\
+m=audio 9 UDP/TLS/RTP/SAVPF 0 8\r\n\
+c=IN IP4 0.0.0.0\r\n\
+a=ice-ufrag:IIjZ\r\n\
+a=ice-pwd:h/NG2DkTNsPwhU0swhrzWbLD\r\n\
+a=mid:0\r\n\
+a=sendrecv\r\n\
+a=rtcp-mux\r\n\
+a=rtpmap:0 PCMU/8000\r\n\
+a=rtpmap:8 PCMA/8000\r\n";
+
+        let pc = PeerConnection::new(RtcConfiguration::default());
+        pc.add_transceiver(MediaKind::Audio, TransceiverDirection::SendRecv);
+
+        let remote = SessionDescription::parse(SdpType::Offer, remote_sdp).unwrap();
+        pc.set_remote_description(remote).await.unwrap();
+
+        let sdp = pc.create_answer().await.unwrap().to_sdp_string();
+        assert!(
+            sdp.contains("a=setup:passive") && !sdp.contains("a=setup:active"),
+            "offerer is the DTLS client, answer must say a=setup:passive, got:\n{sdp}"
         );
     }
 
